@@ -17,6 +17,7 @@ import (
 	"github.com/cosmos/cosmos-proto/internal/zzverif/hz"
 	"google.golang.org/protobuf/proto"
 	"google.golang.org/protobuf/reflect/protoreflect"
+	"google.golang.org/protobuf/runtime/protoiface"
 )
 
 type mcase struct {
@@ -242,9 +243,21 @@ func explore(h *hz.H, c *construction, st *stats, hash0s []uint32) {
 			var sz int
 			var merr error
 			mc := mk()
+			var direct []byte
+			var derr error
 			p := hz.Catch(func() {
 				sz = proto.MarshalOptions{Deterministic: true}.Size(g)
 				out, merr = proto.MarshalOptions{Deterministic: true}.Marshal(g)
+				// the generated method called the way a codec other than proto.Marshal calls it: the Deterministic flag alone
+				fm := g.ProtoReflect()
+				mapCtl.Count = 0 // the same deviation indexes apply to this call's iterations
+				if meth := fm.ProtoMethods(); meth != nil && meth.Marshal != nil {
+					var o protoiface.MarshalOutput
+					o, derr = meth.Marshal(protoiface.MarshalInput{Message: fm, Flags: protoiface.MarshalDeterministic})
+					direct = o.Buf
+				} else {
+					direct = out
+				}
 			})
 			mode, word, k1, w1, k2, w2 := mapCtl.Mode, mapCtl.Word, mapCtl.K1, mapCtl.W1, mapCtl.K2, mapCtl.W2
 			// same choice, non-deterministic mode: diversity witness that the control really permutes iteration
@@ -252,6 +265,12 @@ func explore(h *hz.H, c *construction, st *stats, hash0s []uint32) {
 			hz.Catch(func() {
 				if nd, e := (proto.MarshalOptions{}).Marshal(g); e == nil {
 					nondet[string(nd)] = true
+				}
+				fm := g.ProtoReflect()
+				if meth := fm.ProtoMethods(); meth != nil && meth.Marshal != nil {
+					if o, e := meth.Marshal(protoiface.MarshalInput{Message: fm}); e == nil {
+						nondet[string(o.Buf)] = true
+					}
 				}
 			})
 			if p != nil || merr != nil {
@@ -266,7 +285,12 @@ func explore(h *hz.H, c *construction, st *stats, hash0s []uint32) {
 				mapCtl.Mode = mode
 				return false
 			}
-			_ = word
+			if derr != nil || !bytes.Equal(direct, ref) {
+				mapCtl.Mode = 0
+				h.ViolateMin(fmt.Sprintf("C05/methods-marshal-with-deterministic-flag/%s/%s", shapeKey(c), c.history), fmt.Sprintf("ProtoMethods().Marshal with Flags=MarshalDeterministic on %s of %s (%d entries inserted in order %v, history %s, hash0=%#x) under map-iteration choice {mode %d word %d dev %d:%d %d:%d} gives %x err=%v; proto.MarshalOptions{Deterministic} and the reference give %x", shapeKey(c), c.top.FullName(), c.n, c.order, c.history, h0, mode, word, k1, w1, k2, w2, direct, derr, ref), mc, c.n)
+				mapCtl.Mode = mode
+				return false
+			}
 			return true
 		}
 		// baseline: learn the number of iterations and each one's B
